@@ -90,7 +90,17 @@ all_reference_ids: Set[str] = set()
 def managed_provide_cache(provide_id: str) -> Generator[None, None, None]:
     all_reference_ids_before = all_reference_ids.copy()
 
+    # While its body is being rendered, the `{% provide %}` tag itself holds a reference
+    # to the provided data. Otherwise a component without a parent component, which is rendered
+    # to completion inside the body, would delete the data when it unregisters itself, and
+    # the components that follow it in the same body could no longer inject it.
+    provide_references.setdefault(provide_id, set()).add(provide_id)
+
     def cache_cleanup() -> None:
+        references = provide_references.get(provide_id)
+        if references is not None:
+            references.discard(provide_id)
+
         # Lastly, remove provided data from the cache that was generated during this run,
         # IF there are no more references to it.
         if provide_id in provide_references and not provide_references[provide_id]:
